@@ -61,3 +61,50 @@ def subscribe_n(pm, n):
 def save_then_read(map_a, map_b):
     map_a.save()
     map_b.read()
+
+
+def revert_convert(data_type, value):
+    from canopen.objectdictionary import eds
+    return eds._convert_variable(None, data_type, eds._revert_variable(data_type, value))
+
+
+def od_lookup(container_cls):
+    from canopen import objectdictionary as od_
+    od = od_.ObjectDictionary()
+    v = od_.ODVariable("Plain variable", 0x2000, 0)
+    od.add_object(v)
+    rec = container_cls("Group", 0x2001)
+    m1 = od_.ODVariable("First member", 0x2001, 1)
+    m2 = od_.ODVariable("Second member", 0x2001, 2)
+    rec.add_member(m1)
+    rec.add_member(m2)
+    od.add_object(rec)
+    ok = od[0x2000] is v and od["Plain variable"] is v and od[0x2001] is rec and od["Group"] is rec
+    ok = ok and od[0x2001][1] is m1 and od["Group"]["First member"] is m1 and od["Group.First member"] is m1
+    ok = ok and od["Group.Second member"] is m2 and od[0x2001][2] is m2 and od.get_variable(0x2001, 2) is m2
+    ok = ok and od.get_variable(0x2000) is v and (0x2001 in od) and ("Group" in od) and (0x2002 not in od)
+    ok = ok and v.parent is od and m1.parent is rec and rec.parent is od
+    return ok
+
+
+def sdo_getitem():
+    from canopen import objectdictionary as od_
+    from canopen.sdo.base import SdoBase, SdoVariable, SdoRecord, SdoArray
+    od = od_.ObjectDictionary()
+    v = od_.ODVariable("Plain variable", 0x2000, 0)
+    od.add_object(v)
+    rec = od_.ODRecord("Group", 0x2001)
+    m1 = od_.ODVariable("First member", 0x2001, 1)
+    rec.add_member(m1)
+    od.add_object(rec)
+    arr = od_.ODArray("List", 0x2002)
+    a1 = od_.ODVariable("Element", 0x2002, 1)
+    arr.add_member(a1)
+    od.add_object(arr)
+    sdo = SdoBase(0x601, 0x581, od)
+    ok = sdo[0x2000].od is v and sdo["Plain variable"].od is v and isinstance(sdo[0x2000], SdoVariable)
+    ok = ok and isinstance(sdo[0x2001], SdoRecord) and sdo[0x2001][1].od is m1 and sdo["Group"]["First member"].od is m1
+    ok = ok and sdo["Group.First member"].od is m1 and sdo[0x2001][1].sdo_node is sdo
+    ok = ok and isinstance(sdo[0x2002], SdoArray) and sdo[0x2002][1].od is a1 and sdo["List.Element"].od is a1
+    ok = ok and sdo[0x2000].index == 0x2000 and sdo[0x2001][1].subindex == 1 and sdo["Group.First member"].name == "Group.First member"
+    return ok
